@@ -98,6 +98,9 @@ func (c08) Plan(tier string, seed int64) []core.Scenario {
 		out = append(out, core.Sc("w5").WithN("variant", i%3))
 		out = append(out, core.Sc("w5").WithN("variant", 3))
 	}
+	for i := 0; i < 3; i++ {
+		out = append(out, core.Sc("typeskew").WithN("end", i))
+	}
 	for i := range out {
 		out[i].Seed = seed*49979687 + int64(i)
 		out[i] = out[i].WithN("noise", i%3)
@@ -118,6 +121,8 @@ func (p c08) Run(sc core.Scenario) core.Result {
 		p.w1(sc, r)
 	case "w5":
 		p.w5(sc, r)
+	case "typeskew":
+		p.typeSkew(sc, r)
 	}
 	return r.Result()
 }
@@ -627,4 +632,77 @@ func (c08) w5(sc core.Scenario, r *core.R) {
 	r.Sig(core.Log.Signature())
 	r.Obs("w5_precise_formed", b2i(v == 3 && pol.Count("ws.closechans.each", 1) > 1))
 	r.Sample(map[string]interface{}{"window": "close notification ∥ close-all", "variant": v, "streams": nStreams, "sweep_steps": pol.Count("ws.closechans.each", 1)})
+}
+
+// typeSkew: the server streams values the client's channel type cannot hold (strings into a chan int, as
+// with mismatched API versions). The values are undeliverable, but the channel is still closed exactly once
+// when the stream ends - by the handler closing, by the client being closed, or by connection loss - and a
+// well-typed sibling stream is unaffected.
+func (c08) typeSkew(sc core.Scenario, r *core.R) {
+	end := []string{"hclose", "cclose", "RST"}[sc.I("end")]
+	env := NewEnv(EnvOpt{})
+	defer env.Shutdown()
+	pol := noisePolicy(sc)
+	defer pol.Install()()
+	cl, err := env.NewClient(ClientOpt{Opts: []jsonrpc.Option{jsonrpc.WithReconnectBackoff(5*time.Millisecond, 20*time.Millisecond)}})
+	if err != nil {
+		r.Inconclusive("client: %v", err)
+		return
+	}
+	bg := context.Background()
+	ts, tb := Tok("k"), Tok("b")
+	mode, n := svc.SGoroutine, 5
+	if end != "hclose" {
+		mode, n = svc.SUntilCtx, 3
+	}
+	ch, err := cl.SubStrAsInt(bg, ts, n, mode)
+	if err != nil || ch == nil {
+		r.Inconclusive("subscribe: %v", err)
+		return
+	}
+	closedCh := make(chan struct{})
+	delivered := 0
+	go func() {
+		for range ch {
+			delivered++
+		}
+		close(closedCh)
+	}()
+	chB, errB := cl.Sub(bg, tb, 20, svc.SGoroutine)
+	var gB *got
+	if errB == nil {
+		gB = drainItems(chB, 0, -1, nil)
+	}
+	if !core.Eventually(core.Grace, func() bool { return int(env.Svc.Get(ts).Sent) >= n }) {
+		r.Inconclusive("the handler did not send its values")
+		return
+	}
+	time.Sleep(20 * time.Millisecond)
+	switch end {
+	case "cclose":
+		go cl.Close()
+	case "RST":
+		env.Px.KillAll(wsproxy.RST)
+		probeUntilHealthy(cl, r, 2*core.Grace)
+	}
+	if !core.WaitCh(closedCh, core.Grace) {
+		r.Violate("channel-not-closed:typeskew", "a channel whose values could not be decoded (strings into chan int) is still open %v after the stream ended by %s", core.Grace, end)
+	}
+	if gB != nil && end == "hclose" {
+		if !core.WaitCh(gB.done, core.Grace) {
+			r.Violate("sibling-stream-stuck", "a well-typed sibling of a stream with undecodable values did not complete")
+		} else {
+			checkSeq(r, "sibling-of-typeskew", tb, gB.snapshot(), 20, true)
+		}
+	}
+	if end != "cclose" {
+		t := Tok("p")
+		if v, err := cl.Echo(bg, t, ""); err != nil || v != svc.Reply(t) {
+			r.Violate("client-broken", "after a stream with undecodable values ended (%s) a plain call returned (%q, %v)", end, v, err)
+		}
+	}
+	r.Key("typeskew "+end, true)
+	r.Obs("terminations", 1)
+	r.Sig(core.Log.Signature())
+	r.Sample(map[string]interface{}{"scenario": "stream of values the client's channel type cannot hold", "ended_by": end, "values_delivered": delivered})
 }
